@@ -31,7 +31,7 @@ TECHNIQUE = ("runtime monitoring: fresh-object replay oracle over shared-object 
              "fingerprints, yield-injected thread schedules")
 ASSUMPTIONS = ["Schema.rule_tests is never assigned by the library and is part of the fingerprint as-is"]
 NSHARDS = 16
-TIME_CAP = {"quick": 150, "thorough": 1500}
+TIME_CAP = {"quick": 150, "thorough": 600}
 
 OPS = ["validate", "validate", "test", "filter", "get", "get_paths"]
 
